@@ -50,6 +50,7 @@ type vfsCase struct {
 	Ops    []vfsOp   `json:"ops"`
 	Seed   int64     `json:"seed"`
 	PClose int       `json:"pclose"` // a reader closes before its next Recv with probability pclose/16
+	Rounds int       `json:"rounds"` // mode "burst": number of rounds
 }
 
 type vfsErr struct{ code int }
@@ -336,6 +337,51 @@ func vfsRunConc(c *vfsCase, t *vfsTree) ([]*vfsLog, bool) {
 	}
 }
 
+// mode "burst": per round a fresh instance of the tree; one goroutine per leaf, all released together through a spin barrier, closes its
+// leaf; when all have returned the writer of the (single) pipe sends once and closes.  One `burst` line per round carries what Send
+// returned; spec/StreamsObs.tla replays the round's calls and returns through the rule (ObsBurst).
+func vfsRunBurst(c *vfsCase, w *bufio.Writer) {
+	for r := 0; r < c.Rounds; r++ {
+		t := vfsBuild(c.Tree, &vfsLog{})
+		p := t.pipes[0]
+		n := int32(len(t.leaves))
+		var arrived int32
+		var wg sync.WaitGroup
+		var panicked int32
+		for _, a := range t.leaves {
+			sr := t.readers[a]
+			wg.Add(1)
+			go func() {
+				defer wg.Done()
+				defer func() {
+					if e := recover(); e != nil {
+						atomic.StoreInt32(&panicked, 1)
+					}
+				}()
+				atomic.AddInt32(&arrived, 1)
+				for i := 0; atomic.LoadInt32(&arrived) < n && i < 5000000; i++ {
+				}
+				sr.Close()
+			}()
+		}
+		wg.Wait()
+		if atomic.LoadInt32(&panicked) == 1 {
+			fmt.Fprintf(w, "{\"ev\":\"panic\",\"a\":%d,\"op\":\"close\",\"v\":0,\"res\":\"\"}\n", t.leaves[0])
+			continue
+		}
+		item := c.Tree[p-1].Items[0]
+		res := make(chan bool, 1)
+		go func() { res <- t.writers[p].Send(item, nil) }()
+		select {
+		case closed := <-res:
+			fmt.Fprintf(w, "{\"ev\":\"burst\",\"a\":%d,\"op\":\"send\",\"v\":%d,\"res\":\"%v\"}\n", p, item, closed)
+			t.writers[p].Close()
+		case <-time.After(3 * time.Second):
+			fmt.Fprintf(w, "{\"ev\":\"hang\",\"a\":%d,\"op\":\"send\",\"v\":0,\"res\":\"\"}\n", p)
+		}
+	}
+}
+
 func TestVerifStreams(t *testing.T) {
 	cases, out := os.Getenv("VERIF_CASES"), os.Getenv("VERIF_OUT")
 	if cases == "" || out == "" {
@@ -369,6 +415,13 @@ func TestVerifStreams(t *testing.T) {
 			if c.Tree[i].Items == nil {
 				c.Tree[i].Items = []int{}
 			}
+		}
+		if c.Mode == "burst" {
+			tj, _ := json.Marshal(c.Tree)
+			fmt.Fprintf(w, "{\"ev\":\"case\",\"id\":%q,\"mode\":%q,\"tree\":%s}\n", c.ID, c.Mode, tj)
+			vfsRunBurst(&c, w)
+			n++
+			continue
 		}
 		pre := &vfsLog{}
 		var tree *vfsTree
